@@ -13,7 +13,7 @@ PURE_BUILTINS = {'len', 'isinstance', 'type', 'int', 'str', 'sorted', 'range', '
                  'iter', 'min', 'max', 'getattr', 'setattr', 'super', 'repr', 'bytes', 'list',
                  'tuple', 'bool', 'hasattr', 'set', 'frozenset', 'sum', 'any', 'all', 'zip', 'next',
                  'print', 'object', 'Exception', 'id', 'abs', 'reversed', 'map', 'filter', 'callable',
-                 'bytearray', 'float'}
+                 'bytearray', 'float', 'dir', 'vars'}
 BUILTIN_EXCS = {'BaseException', 'Exception', 'ArithmeticError', 'OverflowError', 'AssertionError',
                 'AttributeError', 'LookupError', 'IndexError', 'KeyError', 'NameError', 'TypeError',
                 'ValueError', 'UnicodeError', 'UnicodeDecodeError', 'UnicodeEncodeError',
@@ -89,9 +89,9 @@ def eval_shared_expr(I, module, cls, expr, name):
 
 def builtin_value(I, name, node):
     if name in PURE_BUILTINS:
-        if name in ('str', 'bytes', 'int', 'dict', 'list', 'tuple', 'bool', 'float', 'object', 'set'):
+        if name in ('str', 'bytes', 'int', 'dict', 'list', 'tuple', 'bool', 'float', 'object'):
             return {'str': str, 'bytes': bytes, 'int': int, 'dict': dict, 'list': list, 'tuple': tuple,
-                    'bool': bool, 'float': float, 'object': object, 'set': set}[name]
+                    'bool': bool, 'float': float, 'object': object}[name]
         if name == 'Exception':
             return External('builtins.Exception')
         return Builtin(name)
@@ -909,7 +909,7 @@ def compare(I, op, l, r, node):
         except TypeError:
             from sa.interp import AbsRaise
             raise AbsRaise(ExcValue('TypeError', site=node), site=node, explicit=False)
-    if isinstance(cl, Label) or isinstance(cr, Label):
+    if (isinstance(cl, Label) or isinstance(cr, Label)) and lc and rc:
         if opn == 'Eq':
             return cl is cr
         if opn == 'NotEq':
